@@ -105,7 +105,12 @@ def pathwise_case(draw):
         case["x0"] = draw(st.one_of(fl(-100.0, 100.0, w), st.sampled_from([0.0, 1.0])))
     else:
         case["x0"] = draw(st.one_of(fl(0.01, 100.0, w), st.sampled_from([1.0, 2.0])))
-    case["init_form"] = draw(st.sampled_from(["tuple", "float", "tensor"]))
+    case["init_form"] = draw(st.sampled_from(["tuple", "float", "tensor", "per_path", "per_path_bare"]))
+    if case["init_form"].startswith("per_path"):
+        # one start value per path: shape (n_paths, 1) (Kou also takes (n_paths,)), inside a tuple or bare
+        el = fl(-100.0, 100.0, w) if fn == "brownian" else fl(0.01, 100.0, w)
+        case["x0s"] = [draw(el) for _ in range(n_paths)]
+        case["flat_state"] = fn == "kou0" and draw(st.booleans())
     if fn == "merton0":
         case["z_jump"] = draw(nested((n_paths, n_steps - 1), _normals(dtype)))
         case["jump_mean"] = draw(fl(-0.5, 0.5))
@@ -133,8 +138,14 @@ def check_pathwise(case, ctx):
         init = (x0,)
     elif case["init_form"] == "float":
         init = x0
-    else:
+    elif case["init_form"] == "tensor":
         init = torch.tensor(x0, dtype=td or torch.float32)
+    else:
+        init = torch.tensor(case["x0s"], dtype=td or torch.float32)
+        init = init if case.get("flat_state") else init.reshape(-1, 1)
+        if case["init_form"] == "per_path":
+            init = (init,)
+    x0_of = (lambda p: case["x0s"][p]) if case["init_form"].startswith("per_path") else (lambda p: x0)
     kw = dict(init_state=init, sigma=case["sigma"], mu=case["mu"], dt=case["dt"], dtype=td, engine=stub)
     label = "C10/pathwise/" + fn
     with ctx.sut(label):
@@ -148,7 +159,7 @@ def check_pathwise(case, ctx):
         else:
             out = ps.generate_kou_jump(N, T, jump_per_year=0.0, jump_mean_up=case["jump_mean_up"],
                                        jump_mean_down=case["jump_mean_down"], jump_up_prob=case["jump_up_prob"], **kw)
-    ctx.cls("fn:" + fn, "dtype:" + str(dtype), "T:" + ("1" if T == 1 else "2-4" if T <= 4 else "5-12"))
+    ctx.cls("fn:" + fn, "dtype:" + str(dtype), "T:" + ("1" if T == 1 else "2-4" if T <= 4 else "5-12"), "init:" + case["init_form"])
     ctx.nontrivial(T >= 3 and case["sigma"] > 0 and case["mu"] != 0.0 and x0 not in (0.0, 1.0))
     ctx.check(not stub.unknown and (N, T) in stub.calls, label + "/engine-call",
               f"engine called with sizes {stub.calls}, expected one call of {(N, T)} for the diffusion normals")
@@ -170,12 +181,12 @@ def check_pathwise(case, ctx):
             t = dt * i
             g = got[p][i]
             if fn == "brownian":
-                want = mp.mpf(x0) + mu * t + sigma * sq * w
-                scale = abs(mp.mpf(x0)) + abs(mu) * t + sigma * sq * aw
+                want = mp.mpf(x0_of(p)) + mu * t + sigma * sq * w
+                scale = abs(mp.mpf(x0_of(p))) + abs(mu) * t + sigma * sq * aw
                 tol = 8 * T * eps * scale + 8 * T * tiny  # + underflow quantum of the dtype
             else:
                 ex = (mu - sigma ** 2 / 2) * t + sigma * sq * w
-                want = mp.mpf(x0) * mp.exp(ex)
+                want = mp.mpf(x0_of(p)) * mp.exp(ex)
                 scale = 1 + abs(mu) * t + sigma ** 2 * t / 2 + sigma * sq * aw
                 tol = 8 * T * eps * scale * abs(want) + 8 * T * tiny
             if not (g == g) or abs(mp.mpf(g) - want) > tol:
@@ -596,6 +607,7 @@ def meanrev_case(draw, tier):
         case["start"] = draw(st.sampled_from(["default", "theta", "zero", "zero", "negative", "any", "any"]))
         case["x0"] = {"default": None, "theta": th, "zero": 0.0, "negative": -draw(fl(0.001, 0.2)),
                       "any": draw(fl(-0.2, 0.5))}[case["start"]]
+    case["init_form"] = draw(st.sampled_from(["tuple", "tuple", "bare", "tensor", "bare_tensor"]))
     return case
 
 
@@ -607,7 +619,9 @@ def check_meanrev(case, ctx):
     kappa, theta, sigma = case["kappa"], case["theta"], case["sigma"]
     x0 = case["x0"]
     start = theta if x0 is None else x0  # documented default: init_state = (theta,)
-    init = None if x0 is None else (x0,)
+    form = case.get("init_form", "tuple")  # the state in a tuple, or bare (as cast_state documents), as a float or a 0-dim tensor
+    init = None if x0 is None else {"tuple": (x0,), "bare": x0, "tensor": (torch.tensor(x0, dtype=torch.float64),),
+                                    "bare_tensor": torch.tensor(x0, dtype=torch.float64)}[form]
     idx = time_idx(T)
     pre = "C10/" + model
     gen = ps.generate_cir if model == "cir" else ps.generate_vasicek
